@@ -146,7 +146,8 @@ def order(types):
 
 
 def fam_bin(types, k=13, kl=13):
-    """k: alphabet for parameter-with-constant pairs, kl: alphabet for loaded-value-with-constant pairs."""
+    """k: alphabet for (parameter, constant) pairs, kl: alphabet for (constant, parameter), (loaded value, constant) and
+    (constant, loaded value) pairs."""
     for ty in order(types):
         vs = consts(ty, k)
         vl = consts(ty, kl)
@@ -158,7 +159,7 @@ def fam_bin(types, k=13, kl=13):
                 yield {"f": "bin", "ty": ty, "op": op, "a": a, "b": b}
             for v in vs:
                 c = ["C", v]
-                for a, b in (("P", c), (c, "P")) + ((("L", c), (c, "L")) if v in vl else ()) + ((("G", c),) if ty == "ptr" else ()):
+                for a, b in (("P", c),) + ((("L", c), (c, "L"), (c, "P")) if v in vl else ()) + ((("G", c),) if ty == "ptr" else ()):
                     yield {"f": "bin", "ty": ty, "op": op, "a": a, "b": b}
             for v1 in vs[:3]:
                 for v2 in vs[:3]:
@@ -195,8 +196,8 @@ def fam_cmp(types, k=13, kl=13):
                 yield {"f": "cmp", "ty": ty, "op": op, "a": a, "b": b}
             for v in vs:
                 yield {"f": "cmp", "ty": ty, "op": op, "a": "P", "b": ["C", v]}
-                yield {"f": "cmp", "ty": ty, "op": op, "a": ["C", v], "b": "P"}
                 if v in vl:
+                    yield {"f": "cmp", "ty": ty, "op": op, "a": ["C", v], "b": "P"}
                     yield {"f": "cmp", "ty": ty, "op": op, "a": "L", "b": ["C", v]}
 
 
@@ -351,7 +352,7 @@ def enumerate_cases(types, tier="quick", seed=0):
     out += list(fam_bin(types, 13, 7 if quick else 13))
     out += list(fam_un(types, 7 if quick else 13))
     out += list(fam_cast(types, 7 if quick else 13))
-    out += list(fam_cmp(types, 13, 3 if quick else 13))
+    out += list(fam_cmp(types, 13, 7 if quick else 13))
     out += list(fam_mem(types))
     out += list(fam_ga(types))
     out += list(fam_call(types, 12 if quick else 16))
